@@ -358,8 +358,8 @@ func checkC14(p *Prog, rp *Report) {
 // ---- C15 ------------------------------------------------------------------------------
 
 func checkC15(p *Prog, rp *Report) {
-	rp.Explanation = "C15-OFFSET: (symbolic-header interpretation of Ar.Next) every returned member advances the offset by 60+size+size%2 with size >= 0 established on the path, so an archive of n bytes yields at most n/60 members; C15-HDRMAGIC: a member is returned only from a header ending 0x60 0x0A (all four byte combinations); C15-SHORT: failed/short reads yield no member and leave the offset alone; C15-LOOP: (scripted-archive interpretation of the loader) the member loop ends on io.EOF and propagates any other error of Next; C15-DET: with decoy and repeated members every iteration order of the member map gives the same outcome; the header parser walks no map; C15-NOPANIC: ten malformed packages (no control file in the control tarball, empty tarball, unmarshal / constructor / close errors, no members, only debian-binary, empty debian-binary, member names equal to or one byte longer than the prefixes) end in an error or load, never in a panic state; C15-FAMILY: LoadAr / Next agree with an ar(5) reference reader on concrete archives (12 name shapes incl. #1/20); C15-NOFATAL: no panic/log.Fatal/os.Exit reachable from LoadAr, Next, Load in the repository; C15-BOUNDS: constant indexes of the header parser are below the checked header length, name slicing stays within the matched prefix."
-	rp.NotDecided = "that a member's reader delivers exactly size bytes when the archive is truncated (needs the length of the caller's io.ReaderAt, a run-time quantity); behaviour of archive/tar and the decompressors on hostile streams; absence of panics inside the standard library."
+	rp.Explanation = "C15-OFFSET: (symbolic-header interpretation of Ar.Next) every returned member advances the offset by 60+size+size%2 with size >= 0 established on the path, so an archive of n bytes yields at most n/60 members; C15-HDRMAGIC: a member is returned only from a header ending 0x60 0x0A (all four byte combinations); C15-SHORT: failed/short reads yield no member and leave the offset alone; C15-TRUNC: (the same interpretation with a concrete size column and a ReaderAt that ends inside or right after the member's data) a member whose recorded size runs past the end of the input is not returned, a complete last member is, whichever way the ReaderAt reports the end; C15-LOOP: (scripted-archive interpretation of the loader) the member loop ends on io.EOF and propagates any other error of Next; C15-DET: with decoy and repeated members every iteration order of the member map gives the same outcome; the header parser walks no map; C15-NOPANIC: ten malformed packages (no control file in the control tarball, empty tarball, unmarshal / constructor / close errors, no members, only debian-binary, empty debian-binary, member names equal to or one byte longer than the prefixes) end in an error or load, never in a panic state; C15-FAMILY: LoadAr / Next agree with an ar(5) reference reader on concrete archives (12 name shapes incl. #1/20); C15-NOFATAL: no panic/log.Fatal/os.Exit reachable from LoadAr, Next, Load in the repository; C15-BOUNDS: constant indexes of the header parser are below the checked header length, name slicing stays within the matched prefix."
+	rp.NotDecided = "that io.SectionReader delivers the bytes of a ReaderAt whose content changes between Next and the read; behaviour of archive/tar and the decompressors on hostile streams; absence of panics inside the standard library."
 	rp.Trusted = []string{"go/types, go/ssa", "io.ReaderAt contract (n < len(p) implies a non-nil error)", "io.SectionReader"}
 	arRules(p, rp, false)
 	pos := ""
